@@ -105,3 +105,79 @@ func (xtalkComp) Gen(r *Rand, tier string, emit func(string)) {
 		emit(fmt.Sprintf("dns 2 %d", r.Next()%1000))
 	}
 }
+
+// ---- C02 `isolate <carrier> <ending>`: logical connections A and B share one session; A then ends in the given
+// manner — clean (orderly close), rst (closed by its application with unread inbound data, so the client sees a
+// reset), flood (A's application stops reading while the target keeps sending) — and B, opened before, must keep
+// echoing, and a new connection C must work.  result: ok | fail
+
+type isolateComp struct{}
+
+func init() { register("isolate", isolateComp{}) }
+
+func (isolateComp) Exec(op string) (string, string, string, bool) {
+	f := strings.Fields(op)
+	if len(f) != 2 {
+		return "bad-op", "", "bad", false
+	}
+	rig, err := NewRig(RigOpts{Carrier: f[0], Insecure: true})
+	if err != nil {
+		return "fail:rig", err.Error(), "fail", false
+	}
+	defer rig.Close()
+	dl := 8 * time.Second
+	a, err := echoOnce(rig, 16, 1, dl)
+	if err != nil {
+		return "fail", "connection A: " + err.Error(), f[0], false
+	}
+	b, err := echoOnce(rig, 16, 2, dl)
+	if err != nil {
+		a.Close()
+		return "fail", "connection B: " + err.Error(), f[0], false
+	}
+	defer b.Close()
+	switch f[1] {
+	case "clean":
+		a.Close()
+	case "rst":
+		// make the echo target send a lot back, read one byte, close with the rest unread
+		_ = writeParts(a, payload(3, 300000), 0, dl)
+		_, _ = readFullDeadline(a, 1, dl)
+		a.Close()
+	case "flood":
+		go func() { _ = writeParts(a, payload(4, 2000000), 0, 3*time.Second) }()
+		defer a.Close()
+	}
+	time.Sleep(200 * time.Millisecond)
+	for i := 0; i < 5; i++ {
+		data := payload(uint64(50+i), 64)
+		if err := writeParts(b, data, 0, dl); err != nil {
+			return "fail", fmt.Sprintf("connection B broke after connection A ended (%s): write: %v", f[1], err), f[0] + " " + f[1], false
+		}
+		got, err := readFullDeadline(b, 64, dl)
+		if err != nil || !bytes.Equal(got, data) {
+			return "fail", fmt.Sprintf("connection B broke after connection A ended (%s): %v", f[1], err), f[0] + " " + f[1], false
+		}
+	}
+	c, err := echoOnce(rig, 16, 9, dl)
+	if err != nil {
+		return "fail", fmt.Sprintf("a new connection failed after connection A ended (%s): %v", f[1], err), f[0] + " " + f[1], false
+	}
+	c.Close()
+	return "ok", "", f[0] + " " + f[1], true
+}
+
+func (isolateComp) Gen(r *Rand, tier string, emit func(string)) {
+	for _, e := range []string{"clean", "rst", "flood"} {
+		emit("tcp " + e)
+	}
+	emit("ws rst")
+	emit("stdio rst")
+	if tier == "thorough" {
+		for _, c := range []string{"tcptls", "starttls", "ws", "wss", "stdio", "udp"} {
+			for _, e := range []string{"clean", "rst", "flood"} {
+				emit(c + " " + e)
+			}
+		}
+	}
+}
